@@ -245,6 +245,8 @@ def run(ctx, host=None):
     R1 = chk.rule('C14.R1', 'iterable parameters are consumed at most once before being materialised', 2)
     R2 = chk.rule('C14.R2', 'import: compress / do_fsync / no_holes flags forwarded unchanged, do_commit=False at every add call, one final commit', 5)
     R3 = chk.rule('C14.R3', 'import branch table: same hash => only keys missing in the destination (loose or packed); different hash => no_holes + read twice', 3)
+    from .common import full_scans_unfiltered
+    full_scans_unfiltered(ctx, chk, R3)
     R4 = chk.rule('C14.R4', 'old/new key lists grow in lockstep; cache reset with every flush; final flush after the loop', 4)
     fn = prog.fn(IMPORT)
     pol = Policy(depth=0)
